@@ -40,20 +40,28 @@ def plan(tier, seed):
     return [{"seed": seed, "i": i, "tier": tier} for i in range(n)]
 
 
-def run_once(plan_, nprod, nmsg, cycles, concurrent_stop, failmask):
+def run_once(plan_, nprod, nmsg, cycles, concurrent_stop, failmask, second_writer=False):
     tape = Tape()
     calls = [0]
 
     def dest(msg):
         i = calls[0]
         calls[0] += 1
+        if msg.get("w"):
+            tape.add("foreign_write", p=msg["p"], ms=msg["seq"])  # a message offered to the OTHER writer arrived here
         tape.add("write", p=msg["p"], ms=msg["seq"], cyc=msg["cyc"], ident=_thread.get_ident(), call=i)
         if i in failmask:
             raise excs.DestFault("wrapped destination fails on call %d" % i)
 
+    other_got = []
+
+    def other_dest(msg):
+        other_got.append((msg.get("w"), msg["p"], msg["seq"], msg["cyc"]))
+
     with warnings.catch_warnings():
         warnings.simplefilter("ignore")
         writer = logwriter.ThreadedWriter(dest, twisted_stub.Reactor())
+        other = logwriter.ThreadedWriter(other_dest, twisted_stub.Reactor()) if second_writer else None
     state = {"cycle": -1, "started": False, "done": [0] * (cycles + 1)}
     idents = {}
     problems = []
@@ -65,6 +73,8 @@ def run_once(plan_, nprod, nmsg, cycles, concurrent_stop, failmask):
                 warnings.simplefilter("ignore")
                 tape.add("start_call", cyc=cyc)
                 writer.startService()
+                if other is not None:
+                    other.startService()
             tape.add("start_ret", cyc=cyc)
             state["cycle"] = cyc
             state["started"] = True
@@ -79,6 +89,10 @@ def run_once(plan_, nprod, nmsg, cycles, concurrent_stop, failmask):
             tape.add("stop_ret", cyc=cyc)
             handle.wait()
             tape.add("stop_done", cyc=cyc)
+            if other is not None:
+                with warnings.catch_warnings():
+                    warnings.simplefilter("ignore")
+                    other.stopService().wait()
             if concurrent_stop:
                 sched.wait_until(lambda: state["done"][cyc] == nprod)
         state["cycle"] = cycles
@@ -90,6 +104,8 @@ def run_once(plan_, nprod, nmsg, cycles, concurrent_stop, failmask):
             for cyc in range(cycles):
                 sched.wait_until(lambda: state["cycle"] >= cyc)
                 for s in range(nmsg):
+                    if other is not None:
+                        other({"p": p, "seq": s, "cyc": cyc, "w": 1})  # a second, independent writer is in use at the same time
                     tape.add("offer_call", p=p, ms=s, cyc=cyc)
                     writer({"p": p, "seq": s, "cyc": cyc})
                     tape.add("offer_ret", p=p, ms=s, cyc=cyc)
@@ -103,6 +119,15 @@ def run_once(plan_, nprod, nmsg, cycles, concurrent_stop, failmask):
     st, errs = sched.run_schedule(plan_, workers, timeout=90.0)
     for n, e in errs.items():
         problems.append("thread %s raised %r" % (n, e))
+    if not st["aborted"]:
+        if tape.events("foreign_write"):
+            problems.append("a message offered to one ThreadedWriter was passed to another writer's destination")
+        if other is not None:
+            want = sorted((1, p, s, c) for p in range(nprod) for s in range(nmsg) for c in range(cycles))
+            if any(x[0] != 1 for x in other_got):
+                problems.append("the second writer's destination received messages offered to the first writer")
+            elif not concurrent_stop and sorted(other_got) != want:
+                problems.append("the second writer wrote %d of the %d messages offered to it" % (len(other_got), len(want)))
     return st, tape, idents, problems
 
 
@@ -165,11 +190,12 @@ def run_case(spec):
     concurrent_stop = rng.random() < 0.4
     total = nprod * nmsg * cycles
     failmask = set(i for i in range(total) if rng.random() < rng.choice([0.0, 0.3, 1.0]))
-    names = ["S"] + ["P%d" % p for p in range(nprod)] + ["dyn%d" % (k + 1) for k in range(2 * cycles)]
+    second_writer = rng.random() < 0.25
+    names = ["S"] + ["P%d" % p for p in range(nprod)] + ["dyn%d" % (k + 1) for k in range((4 if second_writer else 2) * cycles)]
     c = res["counters"]
 
     def execute(plan_, label):
-        st, tape, idents, problems = run_once(plan_, nprod, nmsg, cycles, concurrent_stop, failmask)
+        st, tape, idents, problems = run_once(plan_, nprod, nmsg, cycles, concurrent_stop, failmask, second_writer)
         res["evals"] += 1
         c["schedules_run"] = c.get("schedules_run", 0) + 1
         if st["deadlock"]:
